@@ -184,6 +184,13 @@ func c18Positions() []c18Position {
 			return one(J{"type": "object", "properties": J{"ok": ok, "c": J{"anyOf": A{J{"$ref": "#/$defs/N"}, J{"$ref": "#/$defs/N"}, J{"type": "object", "properties": J{"bad": f}}}}},
 				"$defs": J{"N": J{"type": "object", "properties": J{"k": ok}}}})
 		}},
+		// inside a schema that allows two non-null types (emitted as interface{}), and as a definition kept below the root
+		{"property-of-a-two-type-schema", true, func(f any) ([]genlab.File, []string) {
+			return one(J{"type": "object", "properties": J{"ok": ok, "a": J{"type": A{"object", "string"}, "properties": J{"bad": f}}}})
+		}},
+		{"definition-below-the-root", true, func(f any) ([]genlab.File, []string) {
+			return one(J{"type": "object", "properties": J{"ok": ok, "a": J{"type": "object", "properties": J{"x": ok}, "$defs": J{"Bad": f}}}})
+		}},
 		{"typeless-root-property", true, func(f any) ([]genlab.File, []string) {
 			return one(J{"properties": J{"ok": ok, "bad": f}})
 		}},
@@ -502,6 +509,10 @@ func c18(ctx *Ctx) {
 			return "COMPOSITE_SIBLING_KEYWORDS_DROPPED"
 		case r.pos == "legacy-definitions-next-to-$defs" && r.fault == 1 && r.res.Exit == 0:
 			return "LEGACY_DEFINITIONS_DROPPED_NEXT_TO_DEFS"
+		case r.pos == "property-of-a-two-type-schema" && r.fault == 1 && r.res.Exit == 0:
+			return "MULTI_TYPE_SCHEMA_NOT_VISITED"
+		case r.pos == "definition-below-the-root" && r.fault == 1 && r.res.Exit == 0:
+			return "NESTED_DEFINITIONS_NOT_VISITED"
 		case r.pos == "definition-allOf-branch" && r.fault == 1 && r.res.Exit == 0:
 			return "UNTYPED_COMPOSITE_DEFINITION_NOT_GENERATED"
 		case r.kind == "empty-enum" && (r.pos == "allOf-branch" || r.pos == "allOf-second-branch" || r.pos == "allOf-branch-after-string-branch" || strings.Contains(r.pos, "-allOf-same-ref-text")) && r.res.Exit == 0:
